@@ -71,3 +71,12 @@ PROPS["C15"] = {
     "trusted_base": ["Gen/NumKey.v and Gen/HeadingMap.v regenerated from the sources on every run"],
     "assumptions": ["documents created by New() (opened documents with their own notes/numbering definitions are C13's findings)"],
 }
+
+PROPS["C13"] = {
+    "n": {"quick": 1200, "thorough": 30000},
+    "per_shard": 80,
+    "corr_targets": ["Corr/RefsCorr.vo"],
+    "corr": "Corr/RefsCorr.v: Model.Refs.save_part / used vs the style ids defined by styles.xml and used by document.xml in every saved package of a history",
+    "trusted_base": ["style ids are abstracted to atoms per case by the harness"],
+    "assumptions": ["a style is removed only while no content uses it (removing a style in use leaves a dangling reference: user error, not judged)", "numbering / note ids of library-created documents are C15's; for opened documents with their own numbering see the known finding"],
+}
